@@ -5,11 +5,11 @@ from . import par
 
 GRAPHS = ["chain", "diamond", "missingleaf", "badleaf", "binaryleaf", "headeronly", "flatchain"]
 PROGS = ["dA_lA", "dA_lB", "dA_dB_lA_lA", "dD_dB_lD_lD", "lA_lA", "lC_dA_lC", "lD_dD_lD_lD"]
-RPROGS = ["lA_rA_lA", "dA_rA_lA_lA", "lC_rC_lC_lC", "dB_rA_lB_lA", "lA_tC_rA_lA", "dA_tB_rA_lA_lB", "lA_tC_rA_lA_lB_lC"]        # with refresh (terminology loader only)
+RPROGS = ["lA_rA_lA", "dA_rA_lA_lA", "lC_rC_lC_lC", "dB_rA_lB_lA", "lA_tC_rA_lA", "dA_tB_rA_lA_lB", "lA_tC_rA_lA_lB_lC", "dC_aC_lC", "lC_aC_lC_lB"]        # with refresh (terminology loader only)
 CACHES = ["empty", "warm", "stale"]
 MC = {"quick": [("chain", "dA_lA", "empty"), ("diamond", "dA_lA", "warm"), ("chain", "dD_dB_lD_lD", "stale"), ("missingleaf", "dD_dB_lD_lD", "empty"),
                 ("badleaf", "lC_dA_lC", "warm"), ("diamond", "lC_dA_lC", "empty"), ("chain", "dA_rA_lA_lA", "empty"), ("missingleaf", "lC_rC_lC_lC", "stale"),
-                ("chain", "dB_rA_lB_lA", "warm"), ("chain", "lA_tC_rA_lA", "warm"), ("diamond", "dA_tB_rA_lA_lB", "empty"), ("flatchain", "lA_tC_rA_lA_lB_lC", "warm"), ("flatchain", "dA_dB_lA_lA", "empty")],
+                ("chain", "dB_rA_lB_lA", "warm"), ("chain", "lA_tC_rA_lA", "warm"), ("diamond", "dA_tB_rA_lA_lB", "empty"), ("flatchain", "lA_tC_rA_lA_lB_lC", "warm"), ("flatchain", "dA_dB_lA_lA", "empty"), ("missingleaf", "dC_aC_lC", "empty"), ("missingleaf", "lC_aC_lC_lB", "stale")],
       "thorough": [(g, p, c) for g in GRAPHS for p in PROGS + RPROGS for c in CACHES]}
 
 
@@ -53,7 +53,7 @@ def observe(tier):
     nb = 30 if tier == "quick" else 400
     if tier == "quick":
         tsel = [("dA_lB", "empty"), ("dA_dB_lA_lA", "empty"), ("dD_dB_lD_lD", "warm"), ("lC_dA_lC", "empty"), ("dA_rA_lA_lA", "stale"),
-                ("dB_rA_lB_lA", "empty"), ("lA_tC_rA_lA_lB_lC", "warm")]
+                ("dB_rA_lB_lA", "empty"), ("lA_tC_rA_lA_lB_lC", "warm"), ("dC_aC_lC", "empty")]
         hsel = [("dA_lA", "stale"), ("dA_dB_lA_lA", "empty"), ("lC_dA_lC", "warm")]
     else:
         tsel = [(p, c) for p in PROGS + RPROGS for c in CACHES]
